@@ -167,9 +167,9 @@ reader's `return lo, 0, nil` (F5), `LEnd: llo + lhi`, `hi == 0 → hi = lo`, `lh
 `llo++`, `rlo++`, and the line-class bytes.  Any other configuration fails to elaborate. -/
 theorem C14_current :
     MdiffFmt.recognised = true ∧
-    (∀ s e, MdiffFmt.dspanSingle s e = (e - s == 1)) ∧ (∀ s e, MdiffFmt.dspanOne s e = s) ∧
+    (∀ s e, MdiffFmt.dspanSingle s e = true ↔ e - s = 1) ∧ (∀ s e, MdiffFmt.dspanOne s e = s) ∧
     (∀ s e, MdiffFmt.dspanFst s e = s) ∧ (∀ s e, MdiffFmt.dspanSnd s e = e - 1) ∧
-    (∀ s e, MdiffFmt.uspanSingle s e = (e - s == 1)) ∧ (∀ s e, MdiffFmt.uspanOne s e = s) ∧
+    (∀ s e, MdiffFmt.uspanSingle s e = true ↔ e - s = 1) ∧ (∀ s e, MdiffFmt.uspanOne s e = s) ∧
     (∀ s e, MdiffFmt.uspanFst s e = s) ∧ (∀ s e, MdiffFmt.uspanSnd s e = e - s) ∧
     (∀ l r, MdiffFmt.normalDropRight l r = r - 1) ∧ (∀ l r, MdiffFmt.normalAddLeft l r = l - 1) ∧
     MdiffFmt.uniDrop = "-" ∧ MdiffFmt.uniEmit = " " ∧ MdiffFmt.uniCopy = "+" ∧
@@ -182,11 +182,26 @@ theorem C14_current :
     MdiffFmt.nrmZeroMeansSame = true ∧ MdiffFmt.nrmLhiInc = 1 ∧ MdiffFmt.nrmRhiInc = 1 ∧
     MdiffFmt.nrmAddLloInc = 1 ∧ MdiffFmt.nrmDelRloInc = 1 ∧
     MdiffFmt.rdNrmDel = "< " ∧ MdiffFmt.rdNrmIns = "> " ∧ MdiffFmt.rdNrmSep = "---" := by
-  refine ⟨rfl, fun _ _ => rfl, fun _ _ => rfl, fun _ _ => rfl, fun _ _ => rfl, fun _ _ => rfl,
-    fun _ _ => rfl, fun _ _ => rfl, fun _ _ => rfl, fun _ _ => rfl, fun _ _ => rfl,
-    rfl, rfl, rfl, rfl, rfl, rfl, rfl, rfl, rfl, fun _ => rfl,
-    fun _ _ _ _ => rfl, fun _ _ _ _ => rfl, fun _ _ _ _ => rfl, fun _ _ _ _ => rfl,
+  -- the arithmetic facts are proved up to semantic equality (`simp` + `omega`), so that an
+  -- equivalent rewrite of an extracted expression (`end == start+1`) does not raise a false alarm
+  refine ⟨rfl, ?_, ?_, ?_, ?_, ?_, ?_, ?_, ?_, ?_, ?_,
+    rfl, rfl, rfl, rfl, rfl, rfl, rfl, rfl, rfl, ?_, ?_, ?_, ?_, ?_,
     rfl, rfl, rfl, rfl, rfl, rfl, rfl, rfl, rfl, rfl, rfl, rfl⟩
+  · intro s e; simp [MdiffFmt.dspanSingle] <;> omega
+  · intro s e; simp [MdiffFmt.dspanOne] <;> omega
+  · intro s e; simp [MdiffFmt.dspanFst] <;> omega
+  · intro s e; simp [MdiffFmt.dspanSnd] <;> omega
+  · intro s e; simp [MdiffFmt.uspanSingle] <;> omega
+  · intro s e; simp [MdiffFmt.uspanOne] <;> omega
+  · intro s e; simp [MdiffFmt.uspanFst] <;> omega
+  · intro s e; simp [MdiffFmt.uspanSnd] <;> omega
+  · intro l r; simp [MdiffFmt.normalDropRight] <;> omega
+  · intro l r; simp [MdiffFmt.normalAddLeft] <;> omega
+  · intro lo; simp [MdiffFmt.spanOmitted] <;> omega
+  · intro a b c d; simp [MdiffFmt.uniLStart] <;> omega
+  · intro a b c d; simp [MdiffFmt.uniLEnd] <;> omega
+  · intro a b c d; simp [MdiffFmt.uniRStart] <;> omega
+  · intro a b c d; simp [MdiffFmt.uniREnd] <;> omega
 
 /-! ## not proved (full statements; checked on every generated input by the streams `C14.*`)
 
